@@ -42,13 +42,17 @@ pub struct LangGen {
     pub failing: bool,
     /// only functions with an index below this may be called (termination: calls go strictly downwards)
     pub call_limit: usize,
+    /// procedures called for effect only (their last body expression is a set!)
+    pub setters: Vec<String>,
+    /// builtins that have been redefined in this session
+    pub redefined: Vec<String>,
 }
 
 const SYMS: &[&str] = &["a", "b", "c", "foo", "bar", "x1", "lambda-ish", "q"];
 
 impl LangGen {
     pub fn new(seed: u64) -> LangGen {
-        LangGen { rng: Rng::new(seed), globals: vec![], funcs: vec![], counter: 0, tags: vec![], fail_rate: 0, failing: false, call_limit: usize::MAX }
+        LangGen { rng: Rng::new(seed), globals: vec![], funcs: vec![], counter: 0, tags: vec![], fail_rate: 0, failing: false, call_limit: usize::MAX, setters: vec![], redefined: vec![] }
     }
 
     fn tag(&mut self, t: &str) {
@@ -213,6 +217,9 @@ impl LangGen {
             self.tag("and-or");
             return if self.rng.chance(1, 2) { format!("(or #f {})", a) } else { format!("(and 0 {})", a) };
         }
+        if ty == Ty::Int && !self.funcs.is_empty() && self.call_limit.min(self.funcs.len()) > 0 && self.rng.chance(12, 100) {
+            return self.user_call(cx, depth - 1);
+        }
         match ty {
             Ty::Int => self.int_expr(cx, depth),
             Ty::Bool => self.bool_expr(cx, depth),
@@ -326,8 +333,33 @@ impl LangGen {
         }
     }
 
+    /// (define (setN a) ... (set! g (f a))): a procedure whose last body expression is an assignment
+    /// whose value is a procedure call; it is called for effect only
+    fn define_setter(&mut self) -> Option<String> {
+        let targets: Vec<Var> = self.globals.iter().filter(|v| v.assignable && v.ty == Ty::Int).cloned().collect();
+        if targets.is_empty() || self.funcs.is_empty() {
+            return None;
+        }
+        let g = self.rng.pick(&targets).clone();
+        let name = self.fresh("set");
+        self.call_limit = self.funcs.len();
+        let p = self.fresh("a");
+        let cx = vec![Var { name: p.clone(), ty: Ty::Int, fresh: false, assignable: true }];
+        let call = self.user_call(&cx, 2);
+        self.call_limit = usize::MAX;
+        self.setters.push(name.clone());
+        self.tag("set!-in-tail-position");
+        let pre = if self.rng.chance(1, 2) { format!("(set! {} (+ {} 1)) ", g.name, g.name) } else { String::new() };
+        Some(format!("(define ({} {}) {}(set! {} {}))", name, p, pre, g.name, call))
+    }
+
     /// an expression evaluated for effect
     fn effect(&mut self, cx: &[Var], depth: usize) -> String {
+        if !self.setters.is_empty() && self.call_limit == usize::MAX && self.rng.chance(1, 4) {
+            let s = self.rng.pick(&self.setters.clone()).clone();
+            let a = self.expr(Ty::Int, cx, depth.min(1));
+            return format!("({} {})", s, a);
+        }
         let assignable: Vec<Var> = cx
             .iter()
             .chain(self.globals.iter())
@@ -358,6 +390,21 @@ impl LangGen {
         let e = self.expr(Ty::Sym, cx, depth);
         self.tag("output");
         format!("(write {})", e)
+    }
+
+    /// call of a user-defined procedure returning an Int
+    fn user_call(&mut self, cx: &[Var], d: usize) -> String {
+        let lim = self.call_limit.min(self.funcs.len());
+        let f = self.funcs[self.rng.below(lim)].clone();
+        let extra = if f.rest { self.rng.below(3) } else { 0 };
+        let args: Vec<String> = (0..f.nargs + extra).map(|_| self.expr(Ty::Int, cx, d.min(1))).collect();
+        self.tag(if f.rest { "call-variadic" } else { "call-user" });
+        if self.rng.chance(1, 5) {
+            self.tag("apply");
+            format!("(apply {} (list {}))", f.name, args.join(" "))
+        } else {
+            format!("({} {})", f.name, args.join(" ")).replace(" )", ")")
+        }
     }
 
     fn int_expr(&mut self, cx: &[Var], depth: usize) -> String {
@@ -722,6 +769,30 @@ impl LangGen {
         }
     }
 
+    /// redefinition (define or set!) of a standard procedure that marwood's prelude does not use itself;
+    /// code compiled earlier must see the new binding (late binding of globals)
+    fn redefine_builtin(&mut self) -> String {
+        self.tag("redefine-builtin");
+        let unary = ["abs", "vector-length", "string-length", "char->integer"];
+        let binary = ["*", "max", "min", "quotient", "remainder", "modulo"];
+        if self.rng.chance(1, 2) {
+            let b = self.rng.pick(&binary).to_string();
+            self.redefined.push(b.clone());
+            match self.rng.below(3) {
+                0 => format!("(define ({} x y) (+ x y 1000))", b),
+                1 => format!("(set! {} +)", b),
+                _ => format!("(define {} (lambda (x y) (- x y)))", b),
+            }
+        } else {
+            let b = self.rng.pick(&unary[..1]).to_string();
+            self.redefined.push(b.clone());
+            match self.rng.below(2) {
+                0 => format!("(define ({} x) (+ x 500))", b),
+                _ => format!("(set! {} (lambda (x) (- 0 x)))", b),
+            }
+        }
+    }
+
     fn syntax_error_form(&mut self) -> String {
         self.tag("inject-syntax-error");
         self.failing = true;
@@ -749,7 +820,14 @@ impl LangGen {
                 self.tag("redefinition");
                 let f = self.rng.pick(&self.funcs.clone()).clone();
                 self.define_func(Some(f))
+            } else if k < 46 && i >= 2 {
+                self.redefine_builtin()
             } else if k < 50 {
+                match self.define_setter() {
+                    Some(f) => f,
+                    None => self.effect(&[], 3),
+                }
+            } else if k < 57 {
                 self.fail_rate = self.fail_rate.min(60);
                 self.effect(&[], 3)
             } else {
